@@ -336,3 +336,48 @@ example : ((Sched.run (OtlpPipe.step ocfg) (OtlpPipe.init onet) olabels).map fun
       [(some [0, 1], true), (some [2], true), (some [2], false)], false) := by rfl
 
 end EmitModel.C07
+
+/-! ### More about the emitters as a whole -/
+namespace EmitModel.C07
+open EmitModel.Batcher EmitModel.Sched EmitModel.Otlp EmitModel.FileSet
+
+/-- **Within the retry budget a successful OTLP flush means delivered.** If the collector is reachable and the failures
+    it still has in store (`Net.pending`: the responses the client counts as failures, plus one wasted attempt per
+    connection dropped behind a response head) fit in the retry budget, then in every execution of the signal as a
+    whole no batch is ever given up — so once the callback of flush watcher `w` has run, every item accepted before the
+    flush was requested was cleared by a counted overflow truncation or is in a request the collector acknowledged.
+    (C12 `every_event_delivered` for one batch, here for every interleaving and any number of batches.) -/
+theorem otlp_flush_means_delivered_within_budget (cfg : OtlpPipe.Cfg) (net0 : Net) (hd : net0.dead = false)
+    (hb : net0.pending cfg.tr ≤ cfg.ch.retryMax) (s : OtlpPipe.St) (h : OtlpPipe.Reachable cfg net0 s)
+    (hn : s.ch.registered.Nodup) (ht : s.ch.tornDown = false) (w : Nat) (acc : List Nat)
+    (ha : (w, acc) ∈ s.ch.acceptedAt) (hf : w ∈ s.ch.fired) :
+    ∀ x ∈ acc, x ∈ s.ch.truncations.flatten ∨ OtlpPipe.Delivered cfg.tr s.net.log (x : Int) := by
+  intro x hx
+  have hnone := (OtlpPipe.binv_reachable cfg net0 hd hb s h).noneFailed
+  rcases otlp_flush_means_answered cfg net0 s h hn ht w acc ha hf x hx with h1 | h1 | h1
+  · exact .inl h1
+  · rw [hnone] at h1; cases h1
+  · exact .inr h1
+
+-- the hypotheses are met by the run above: one failing response against a budget of ten
+example : onet.dead = false ∧ onet.pending ocfg.tr ≤ ocfg.ch.retryMax := by decide
+
+/-- **No record is ever mangled — in the emitter as a whole.** In every state the rolling-file emitter can reach (any
+    interleaving of sends, flush requests, hand-offs, retries, drops; any fault plan), every separator-delimited
+    record of every file of the set is empty, a complete event some `emit` formatted, or a non-empty strict prefix of
+    one such event — never bytes of two events; and without an interrupting fault (short write that put bytes) every
+    record is empty or complete. -/
+theorem file_pipeline_records_wellformed (cfg : FilePipe.Cfg) (E : List Nat → Prop) (c : Nat) (hsep : cfg.file.sep = [c])
+    (hwf : WfEvents E c) (hev : ∀ x, E (cfg.ev x)) (fs0 : FileSet.St) (h0 : FileSet.Inv cfg.file E c fs0)
+    (s : FilePipe.St) (h : FilePipe.Reachable cfg fs0 s) (n : List Nat) (f : File)
+    (hget : fsGet s.fs.fs n = some f) (hmem : isMember cfg.file.pfx cfg.file.ext n = true) :
+    ∀ r ∈ splitOn c f.content,
+      r = [] ∨ E (r ++ [c]) ∨ (s.fs.faulted = true ∧ r ≠ [] ∧ ∃ e, E e ∧ r <+: e ∧ r.length < e.length) := by
+  have hp := FilePipe.pinv_reachable hsep hwf hev fs0 h0 s h
+  intro r hr
+  rcases (hp.fsInv.good n f hget hmem).records hwf r hr with h | h | ⟨ht, h⟩
+  · exact .inl h
+  · exact .inr (.inl h)
+  · exact .inr (.inr ⟨ht, h⟩)
+
+end EmitModel.C07
